@@ -11,7 +11,7 @@
                                               make_server_connection failure, handle_protocol_error (errors reported by
                                               the upstream connection), handle_connect_regular (eager connect failure)
 
-   Sites[s] = [protos, status, srck, reflects, path, multiline]: one entry per place that produces a page.
+   Sites[s] = [protos, status, srck, reflects, path, multiline, maxsize]: one entry per place that produces a page.
      path = "read_headers": Http1Server.read_headers catches ValueError and answers itself
             "stream":       HttpStream sends ResponseProtocolError(message, code) to the client connection object
             "connect":      handle_connect_regular builds a plain 502 response (no template, no content type)
@@ -35,13 +35,17 @@ Lines(p) == 1 + Cardinality({ i \in 1..Len(p) : Atoms[p[i]].nl })   \* lines of 
 CountLt(s) == Cardinality({ i \in 1..Len(s) : s[i] = "lt" })
 IsRef(t) == t = "ref"
 
-NoSc == [site |-> "", proto |-> "", atoms |-> <<>>]
+NoSc == [site |-> "", proto |-> "", atoms |-> <<>>, sz |-> 0]
 Init == pc = "idle" /\ sc = NoSc /\ pend = 0 /\ mon = MonInit /\ obs = <<>>
 Live == mon.bad = <<>>
 Emit(evs) == obs' = evs /\ mon' = FoldEvents(MonStep, mon, evs)
 
 \* format_error(status, message) seen through the tokeniser
-Page(s, proto, atoms) ==
+\* H2EndLost: BufferedH2Connection.send_data(data, end_stream=True) splits data longer than the peer's maximum frame
+\* size (16 KiB) into chunks that are all sent with end_stream=False, so END_STREAM is never sent: an HTTP/2 error page
+\* of size class >= 1 is not terminated (named deviation of the code; the statement demands completeness for HTTP/1 only)
+H2EndLost(proto, sz) == proto = "h2" /\ sz > 0
+Page(s, proto, atoms, sz) ==
   LET site == Sites[s]
       raw  == site.reflects /\ ~Escape          \* the message reaches the template unescaped
       mk   == IF raw THEN MarkupOf(atoms) ELSE <<>>
@@ -52,7 +56,8 @@ Page(s, proto, atoms) ==
       nlt |-> 12 + (IF raw THEN CountLt(ClsOf(atoms)) ELSE 0), nlt0 |-> 12,
       refl |-> site.reflects, inner |-> [i \in 1..Len(mk) |-> IF IsRef(mk[i]) THEN "ref" ELSE "markup"],
       src |-> ClsOf(atoms), dec |-> IF site.reflects THEN ClsOf(atoms) ELSE <<>>,
-      parsed |-> TRUE, has_len |-> proto = "h1", chunked |-> FALSE, delta |-> 0, closed |-> proto = "h1"]
+      parsed |-> ~H2EndLost(proto, sz), has_len |-> proto = "h1", chunked |-> FALSE, delta |-> 0,
+      closed |-> proto = "h1"]
 
 \* handle_connect_regular: Response.make(502, "Cannot connect to ...: {err} ..."): plain text, no content type, sent
 \* through the ordinary response path; the HTML projection does not apply to it
@@ -63,18 +68,21 @@ PlainPage(s, proto, atoms) ==
    parsed |-> TRUE, has_len |-> TRUE, chunked |-> FALSE, delta |-> 0, closed |-> FALSE]
 
 \* the client (and, for upstream sources, the server / the connect attempt) delivers the input
-Request(s, proto, atoms) ==
+\* sz: size class of the reflected text (0 short, 1 > 16 KiB, 2 > 64 KiB); long texts only where the source can carry
+\* them (Sites[s].maxsize), class 2 only towards HTTP/1 clients, and with single-atom payloads (keeps the table small)
+Request(s, proto, atoms, sz) ==
   /\ Live /\ pc = "idle" /\ proto \in Sites[s].protos
+  /\ sz <= Sites[s].maxsize /\ (sz = 2 => proto = "h1") /\ (sz > 0 => Len(atoms) = 1)
   /\ \A i \in 1..Len(atoms) : Atoms[atoms[i]].nl => Sites[s].multiline   \* only some sources can carry a line break
-  /\ sc' = [site |-> s, proto |-> proto, atoms |-> atoms]
+  /\ sc' = [site |-> s, proto |-> proto, atoms |-> atoms, sz |-> sz]
   /\ pc' = Sites[s].path /\ UNCHANGED pend
   /\ Emit(<<[k |-> "input", site |-> s, proto |-> proto, srck |-> Sites[s].srck, src |-> ClsOf(atoms),
-             lines |-> Lines(atoms)]>>)
+             lines |-> Lines(atoms), size |-> sz]>>)
 
 \* Http1Server.read_headers: except ValueError -> SendData(make_error_response(400, str(e))); CloseConnection
 H1ReadHeadersError ==
   /\ Live /\ pc = "read_headers" /\ pc' = "done" /\ UNCHANGED <<sc, pend>>
-  /\ Emit(<<Page(sc.site, "h1", sc.atoms)>>)
+  /\ Emit(<<Page(sc.site, "h1", sc.atoms, sc.sz)>>)
 
 \* HttpStream: yield SendHttp(ResponseProtocolError(stream_id, message, code), client); code.http_status_code()
 StreamError ==
@@ -84,12 +92,12 @@ StreamError ==
 \* Http1Server.send(ResponseProtocolError): no response started and a status -> make_error_response; CloseConnection
 H1SendError ==
   /\ Live /\ pc = "send_h1" /\ pc' = "done" /\ UNCHANGED <<sc, pend>>
-  /\ Emit(<<Page(sc.site, "h1", sc.atoms)>>)
+  /\ Emit(<<Page(sc.site, "h1", sc.atoms, sc.sz)>>)
 
 \* Http2Connection: headers not sent yet and a status -> send_headers + send_data(format_error(...), end_stream=True)
 H2SendError ==
   /\ Live /\ pc = "send_h2" /\ pc' = "done" /\ UNCHANGED <<sc, pend>>
-  /\ Emit(<<Page(sc.site, "h2", sc.atoms)>>)
+  /\ Emit(<<Page(sc.site, "h2", sc.atoms, sc.sz)>>)
 
 ConnectEagerFail ==
   /\ Live /\ pc = "connect" /\ pc' = "done" /\ UNCHANGED <<sc, pend>>
@@ -97,7 +105,7 @@ ConnectEagerFail ==
 
 Finish == /\ Live /\ pc = "done" /\ pc' = "ended" /\ UNCHANGED <<sc, pend>> /\ Emit(<<[k |-> "end"]>>)
 
-Next == \/ \E s \in DOMAIN Sites, proto \in {"h1", "h2"}, atoms \in Payloads : Request(s, proto, atoms)
+Next == \/ \E s \in DOMAIN Sites, proto \in {"h1", "h2"}, atoms \in Payloads, sz \in 0..2 : Request(s, proto, atoms, sz)
         \/ H1ReadHeadersError
         \/ StreamError
         \/ H1SendError
